@@ -102,3 +102,25 @@ void harness (void)
   XV_CANARY ("static entries");
 }
 #endif
+
+#ifdef L_be32_vect
+/* lib/byteorder.h: the vector forms used by SHA-256 (and, with 64-bit words,
+   SHA-512).  Loop contract over the moving pointers, for every length.  */
+#include "byteorder.h"
+uint8_t *g_dst; const uint32_t *g_src; size_t g_len, g_k;
+void harness (void)
+{
+  XV_IN (size_t, n, nondet_size);
+  XV_ASSUME (n <= XV_MAXOBJ / 4);
+  uint32_t *src = malloc (4 * n); uint8_t *dst = malloc (4 * n);
+  XV_ASSUME (src != NULL && dst != NULL);
+  XV_IN (size_t, k, nondet_size);
+  XV_ASSUME (k < n);
+  g_dst = dst; g_src = src; g_len = n; g_k = k;
+  cpu_to_be32_vect (dst, src, n);
+  XV_ASSERT ("C04,C16", dst[4 * k] == (uint8_t) (src[k] >> 24) && dst[4 * k + 1] == (uint8_t) (src[k] >> 16)
+             && dst[4 * k + 2] == (uint8_t) (src[k] >> 8) && dst[4 * k + 3] == (uint8_t) src[k],
+             "word k of the source is stored big-endian at byte 4k (arbitrary k)");
+  XV_CANARY ("be32_vect");
+}
+#endif
